@@ -15,12 +15,14 @@ def load_effects():
 class CallGraph:
     def __init__(self, prog):
         self.prog = prog
-        self.edges = {}      # body name -> set(callee names, workspace or external)
+        self.edges = {}      # body name -> set(callee names, workspace or external): calls and closures created
+        self.refs = {}       # body name -> set(fn names used as values: fn pointers, fn items passed along, fn tables in constants)
         self.sites = {}      # body name -> list of (callee name, term, bb)
         self.addr_taken = set()  # workspace fns used as values (fn pointers / fn items passed around)
         self.indirect = {}   # body name -> list of indirect call terms
         for b in prog.bodies.values():
             es = set()
+            rs_ = set()
             ss = []
             for bb, blk in enumerate(b.blocks):
                 if blk.get("cleanup"):
@@ -32,7 +34,7 @@ class CallGraph:
                     rv = s["rv"]
                     if "agg" in rv and "closure" in rv["agg"]:
                         es.add(rv["agg"]["closure"])
-                    self._fn_consts(rv, es)
+                    self._fn_consts(rv, rs_)
                 t = blk["term"]
                 if t["k"] == "call":
                     if "callee" in t:
@@ -48,13 +50,14 @@ class CallGraph:
                         if "const" in a and "fn" in a["const"]:
                             f = a["const"]["fn"]
                             n = f.get("resolved") or f["$fn"]
-                            es.add(n)
+                            es.add(n)  # a fn item handed to a callee is (conservatively) called by it
                             self.addr_taken.add(n)
             # closures defined inside are reachable from their parent
             for c in prog.closures_of(b.name):
                 if prog.body(c).j.get("direct_parent") == b.name:
                     es.add(c)
             self.edges[b.name] = es
+            self.refs[b.name] = rs_
             self.sites[b.name] = ss
         # function pointers stored in constants
         for c in prog.consts.values():
@@ -92,29 +95,38 @@ class CallGraph:
                 self._fn_values(x, out)
 
     def reachable(self, roots, stop=()):
-        """(workspace bodies reachable, external callees reached, has_indirect_calls)."""
+        """(workspace bodies reachable, external callees reached, has_indirect_calls).
+        Call edges and closure creations are always followed.  Function *values* (fn pointers in constants or operands) are
+        followed only once an indirect call is reachable: then every fn value referenced from the reachable set, and every
+        address-taken workspace fn, is a possible target (over-approximation)."""
+        stop = set(stop)
         seen = set()
         ext = {}
-        stack = list(roots)
         indirect = False
-        stop = set(stop)
-        while stack:
-            n = stack.pop()
-            if n in seen or n in stop:
-                continue
-            if n not in self.prog.bodies:
-                continue
-            seen.add(n)
-            if n in self.indirect:
-                if not indirect:
+        stack = list(roots)
+        refs_pending = set()
+        while True:
+            while stack:
+                n = stack.pop()
+                if n in seen or n in stop:
+                    continue
+                if n not in self.prog.bodies:
+                    continue
+                seen.add(n)
+                if n in self.indirect:
                     indirect = True
-                    # over-approximation: an indirect call may reach any address-taken workspace fn
-                    stack.extend(x for x in self.addr_taken if x in self.prog.bodies)
-            for e in self.edges.get(n, ()):
-                if e in self.prog.bodies:
-                    stack.append(e)
-                else:
-                    ext.setdefault(e, set()).add(n)
+                refs_pending |= self.refs.get(n, set())
+                for e in self.edges.get(n, ()):
+                    if e in self.prog.bodies:
+                        stack.append(e)
+                    else:
+                        ext.setdefault(e, set()).add(n)
+            if indirect:
+                more = [x for x in (refs_pending | self.addr_taken) if x in self.prog.bodies and x not in seen and x not in stop]
+                if more:
+                    stack.extend(more)
+                    continue
+            break
         return seen, ext, indirect
 
     def path_to(self, roots, target_pred):
